@@ -8,13 +8,13 @@ DevSets == ndJsonDeserialize("devsets.ndjson")
 RangeOf(q) == {q[i] : i \in 1..Len(q)}
 ExplainInit ==
   /\ \E k \in 1..Len(Cases) : \E d \in 1..Len(DevSets) :
-       /\ cfg = [pa |-> Cases[k].pa, ra |-> Cases[k].ra, tagged |-> Cases[k].tagged, devs |-> RangeOf(DevSets[d].devs)]
+       /\ cfg = [pa |-> Cases[k].pa, ra |-> Cases[k].ra, tagged |-> Cases[k].tagged, tags |-> Cases[k].tags, devs |-> RangeOf(DevSets[d].devs)]
        /\ pv = Cases[k].pv /\ rv = Cases[k].rv
   /\ pc = "encode" /\ wire = <<>> /\ delivered = <<>> /\ invoked = FALSE /\ status = 0 /\ errname = "none"
   /\ rwire = <<>> /\ returned = <<>> /\ cerr = "none"
 ExplainSpec == ExplainInit /\ [][Next]_vars
 EmitExplain == pc = "done" =>
-  PrintT(<<"VEC", ToJson([pa |-> cfg.pa, ra |-> cfg.ra, tagged |-> cfg.tagged, pv |-> pv, rv |-> rv, devs |-> SetSeq(cfg.devs),
+  PrintT(<<"VEC", ToJson([pa |-> cfg.pa, ra |-> cfg.ra, tagged |-> cfg.tagged, tags |-> TagLayout, pv |-> pv, rv |-> rv, devs |-> SetSeq(cfg.devs),
      mech |-> [ where |-> [i \in 1..Len(cfg.pa) |-> wire[i].loc], delivered |-> delivered, invoked |-> invoked,
                 status |-> status, errname |-> errname, returned |-> returned, cerr |-> cerr ] ])>>)
 =============================================================================
